@@ -29,6 +29,12 @@ structure Obs where
   pendingBytes : Nat := 0
   /-- number of `readHandshake` calls the case made (datagram stack) -/
   hsCalls : Nat := 1
+  /-- number of consecutive records that neither advance the handshake nor deliver data (empty
+  application data, warning alerts) the peer sent before the record that the call could deliver,
+  where the library documents a limit for them -/
+  uselessRun : Nat := 0
+  /-- growth of the goroutine stacks of the process while the call ran -/
+  stackGrowth : Nat := 0
 
 def maxPlaintext : Nat := 16384
 def maxCiphertext : Nat := 16384 + 2048
@@ -42,11 +48,21 @@ def rawBound : Nat := 4 * (5 + maxCiphertext + 512) + 8192
 (message + one bit per byte) -/
 def pendingPerCall : Nat := 256
 def pendingBufBytes : Nat := maxHandshake + maxHandshake / 8
+/-- the documented limit on consecutive non-advancing records ("maxUselessRecords is the maximum
+number of consecutive non-advancing records permitted": 16) -/
+def maxUseless : Nat := 16
+/-- a receive call may not need more stack the more the peer sends: 4 MiB is far above what any
+call uses and far below what one frame per ignored record costs in a flood -/
+def stackBound : Nat := 4 * 1024 * 1024
 
 /-- `none` = the property holds on this observation; `some (tag, reason)` otherwise -/
 def verdict (o : Obs) : Option (String × String) :=
   if o.cls == "panic" then some ("panic", "the endpoint panicked on peer input")
   else if o.stalled then some ("spin", "a call ran past the watchdog without consuming input or returning")
+  else if o.uselessRun > maxUseless && o.cls == "ok" then
+    some ("spin", s!"{o.uselessRun} consecutive non-advancing records were ignored (limit {maxUseless}) and the call still succeeded")
+  else if o.stackGrowth > stackBound then
+    some ("mem", s!"goroutine stack grew by {o.stackGrowth} bytes during one receive call, bound {stackBound}")
   else if o.hand > handBound then some ("mem", s!"handshake buffer holds {o.hand} bytes, bound {handBound}")
   else if o.raw > rawBound then some ("mem", s!"raw input buffer holds {o.raw} bytes, bound {rawBound}")
   else if o.pending > pendingPerCall * o.hsCalls then
